@@ -29,8 +29,9 @@ EXTENDS Naturals, FiniteSets
 
 Absent  == 0
 DeadPid == 9
+ParentPid == 8   \* a process that constructed lock objects before forking; alive iff cfg.parent
 
-VARIABLES cfg,    \* [n |-> number of processes, stale |-> initial stale link, mortal |-> holders may die]
+VARIABLES cfg,    \* [n |-> number of processes, stale |-> initial stale link, mortal |-> holders may die, parent |-> ParentPid alive]
           link,   \* Absent or the pid stored in the lock symlink
           alive,  \* set of live pids
           pc,     \* per process control state
@@ -46,7 +47,7 @@ Stale == link # Absent /\ link \notin alive
 InitWith(c) ==
     /\ cfg = c
     /\ link = IF c.stale THEN DeadPid ELSE Absent
-    /\ alive = 1..c.n
+    /\ alive = 1..c.n \cup (IF c.parent THEN {ParentPid} ELSE {})
     /\ pc = [p \in 1..c.n |-> "idle"]
     /\ rd = [p \in 1..c.n |-> 0]
     /\ tried = {}
